@@ -7,4 +7,5 @@ let () =
   | [| _; "linq" |] -> drv_linq ()
   | [| _; "sieve" |] -> drv_sieve ()
   | [| _; "world" |] -> drv_world ()
+  | [| _; "pure" |] -> drv_pure ()
   | _ -> prerr_endline "usage: modeldrv <driver>"; exit 2
